@@ -140,6 +140,9 @@ def permute_systems(
     :return: The matrix or vector that has been permuted.
 
     """
+    if sparse.issparse(input_mat):
+        input_mat = input_mat.toarray()
+
     if len(input_mat.shape) == 1:
         input_mat_dims = (1, input_mat.shape[0])
     else:
